@@ -39,7 +39,8 @@ class Module:
             self.tree, self.norm_counts = normalize(self.tree)
             from . import alpha, inline
             self.inlined, self.not_inlined = inline.apply(self.tree, relpath, loader)
-            from .normalize import split_tuple_assignments
+            from .normalize import split_tuple_assignments, fold_constant_conditions
+            self.norm_counts['folded'] = fold_constant_conditions(self.tree)
             self.norm_counts['tuple_split'] = split_tuple_assignments(self.tree)
             self.renamed = alpha.apply(self.tree, relpath)
             from . import propagate
